@@ -13,10 +13,15 @@ PROP = 'C04'
 MAPTY = 'std::collections::HashMap<types::peer_id::PeerId, connection::Connection>'
 
 
+def conn_map_field():
+    """index of ActivePeersInner's PeerId -> Connection map, found by its type (robust to renames/reorders)"""
+    return struct_fields('crates/anemo/src/network/connection_manager.rs', 'ActivePeersInner').by_type(r'^HashMap<PeerId,Connection>$')
+
+
 def inner_state(p):
     """self: &mut ActivePeersInner with a symbolic connection map"""
     cmap = Sym('conns', MAPTY)
-    inner = Sym('inner', 'ActivePeersInner').with_ov(('f', 0), cmap)
+    inner = Sym('inner', 'ActivePeersInner').with_ov(('f', conn_map_field()), cmap)
     p.mem[('H', 'inner', 'ActivePeersInner')] = inner
     return Ptr(('H', 'inner', 'ActivePeersInner'), (), True, 'ActivePeersInner')
 
